@@ -367,7 +367,8 @@ func (x *Explorer) ConfirmExact(target *E1State, opts ConfirmOpts) *Confirmation
 				q = enqueue(QExact, n.queues, r.tokens)
 			}
 			q = xs.normalize(r.succ, q)
-			if opts.NeedIdle {
+			if opts.NeedIdle && env.Crashes >= sc.CrashBudget {
+				// (while a crash is still possible every pending token may simply vanish)
 				for _, items := range q {
 					last := ""
 					for _, it := range items {
